@@ -168,8 +168,22 @@ pub fn cases() -> Vec<Pair> {
     both_p(&mut out, "window named", &s, "SELECT \"id\", SUM(\"v\") OVER \"w1\" AS \"run\" FROM \"t\" WINDOW \"w1\" AS (PARTITION BY \"g\") ORDER BY \"id\" ASC", true, true);
     let s = Query::select().column(a("id")).from(a("t")).order_by(a("id"), Order::Asc).lock(LockType::Update).to_owned();
     both(&mut out, "lock (omitted on SQLite)", &s, "SELECT \"id\" FROM \"t\" ORDER BY \"id\" ASC", true);
+    // ---- builder state: a clause removed again takes nothing else with it (reset_* / clear_* after other clauses were given)
+    let s = Query::select().column(a("id")).from(a("t")).order_by(a("id"), Order::Asc).limit(2).offset(1).reset_offset().to_owned();
+    both(&mut out, "state limit offset reset_offset", &s, "SELECT \"id\" FROM \"t\" ORDER BY \"id\" ASC LIMIT 2", true);
+    let s = Query::select().column(a("id")).from(a("t")).order_by(a("id"), Order::Asc).limit(2).reset_offset().to_owned();
+    both(&mut out, "state limit reset_offset", &s, "SELECT \"id\" FROM \"t\" ORDER BY \"id\" ASC LIMIT 2", true);
+    let s = Query::select().column(a("id")).from(a("t")).order_by(a("id"), Order::Asc).limit(2).offset(1).reset_limit().limit(3).to_owned();
+    both(&mut out, "state reset_limit limit", &s, "SELECT \"id\" FROM \"t\" ORDER BY \"id\" ASC LIMIT 3 OFFSET 1", true);
+    let s = Query::select().column(a("v")).from(a("t")).and_where(c("v").gt(20)).order_by(a("v"), Order::Desc).limit(4).clear_order_by().order_by(a("id"), Order::Asc).to_owned();
+    both(&mut out, "state clear_order_by", &s, "SELECT \"v\" FROM \"t\" WHERE \"v\" > 20 ORDER BY \"id\" ASC LIMIT 4", true);
+    let s = Query::select().column(a("v")).distinct().from(a("u")).and_where(c("id").lt(5)).group_by_col(a("g")).clear_selects().from_clear().column(a("g")).from(a("t")).order_by(a("g"), Order::Asc).to_owned();
+    both(&mut out, "state clear_selects from_clear", &s, "SELECT DISTINCT \"g\" FROM \"t\" WHERE \"id\" < 5 GROUP BY \"g\" ORDER BY \"g\" ASC", true);
+    let mut s = Query::select(); s.column(a("id")).from(a("t")).order_by(a("id"), Order::Asc).limit(2).offset(2);
+    let s = s.take();
+    both(&mut out, "state take keeps limit and offset", &s, "SELECT \"id\" FROM \"t\" ORDER BY \"id\" ASC LIMIT 2 OFFSET 2", true);
     // ---- INSERT
-    for shape in 0..4 { for conflict in 0..5 { for ret in 0..3 {
+    for shape in 0..4 { for conflict in 0..7 { for ret in 0..3 {
         if shape == 3 && conflict != 0 { continue; }
         let mut i = Query::insert();
         match ret { 1 => { i.returning_col(a("id")); } 2 => { i.returning_all(); } _ => {} }
@@ -178,6 +192,9 @@ pub fn cases() -> Vec<Pair> {
             2 => { i.on_conflict(OnConflict::column(a("x")).update_column(a("tid")).to_owned()); }
             3 => { i.on_conflict(OnConflict::column(a("x")).value(a("tid"), Expr::val(99)).action_and_where(Expr::col((a("u"), a("id"))).gt(1)).to_owned()); }
             4 => { i.on_conflict(OnConflict::new().do_nothing().to_owned()); }
+            // the same upsert as 3 through the other spellings of the action's filter
+            5 => { i.on_conflict(OnConflict::column(a("x")).value(a("tid"), Expr::val(99)).action_and_where_option(Some(Expr::col((a("u"), a("id"))).gt(1))).target_and_where_option(None).to_owned()); }
+            6 => { i.on_conflict(OnConflict::column(a("x")).value(a("tid"), Expr::val(99)).action_cond_where(Cond::all().add(Expr::col((a("u"), a("id"))).gt(1))).action_and_where_option(None).to_owned()); }
             _ => {}
         }
         let (tbl, mut r) = if shape == 3 { i.into_table(a("k")).or_default_values(); ("k", String::from("INSERT INTO \"k\" DEFAULT VALUES")) } else { i.into_table(a("u")).columns([a("id"), a("tid"), a("x")]); ("u", String::from("INSERT INTO \"u\" (\"id\", \"tid\", \"x\") ")) };
@@ -191,7 +208,7 @@ pub fn cases() -> Vec<Pair> {
         // conflict target x: rows with x = 'p' / 'q' collide with the fixture; shape 2 inserts x = 'a' twice (second collides with the first)
         if (conflict == 0) && (shape == 0 || shape == 1 || shape == 2) { continue; }   // a plain collision is an engine error in both: nothing to compare
         if shape == 2 && conflict != 0 { r += " "; r = r.replace(" WHERE \"g\"", " WHERE true AND \"g\""); }   // SQLite's parsing ambiguity: INSERT .. SELECT .. ON CONFLICT needs a WHERE clause - both have one
-        r += match conflict { 1 => " ON CONFLICT (\"x\") DO NOTHING", 2 => " ON CONFLICT (\"x\") DO UPDATE SET \"tid\" = \"excluded\".\"tid\"", 3 => " ON CONFLICT (\"x\") DO UPDATE SET \"tid\" = 99 WHERE \"u\".\"id\" > 1", 4 => " ON CONFLICT DO NOTHING", _ => "" };
+        r += match conflict { 1 => " ON CONFLICT (\"x\") DO NOTHING", 2 => " ON CONFLICT (\"x\") DO UPDATE SET \"tid\" = \"excluded\".\"tid\"", 3 | 5 | 6 => " ON CONFLICT (\"x\") DO UPDATE SET \"tid\" = 99 WHERE \"u\".\"id\" > 1", 4 => " ON CONFLICT DO NOTHING", _ => "" };
         r += match ret { 1 => " RETURNING \"id\"", 2 => " RETURNING *", _ => "" };
         both(&mut out, &format!("insert shape={shape} conflict={conflict} returning={ret}"), &i, &r.replace("  ", " "), true);
     } } }
